@@ -102,6 +102,72 @@ func genC01(r *rand.Rand, tier string, in *input, c02 bool) {
 		}
 		x := r.IntN(100)
 		switch {
+		case x >= 28 && x < 35 && p.ready && in.Voters == 5 && in.Quorum == 3 && in.MaxRecs >= 3: // chain of FAILED leaderships:
+			// L writes a 3-record proposal locally only; b (the lowest other node) is installed without L (barrier on the
+			// rest) and writes a 1-record proposal locally only; c is installed without L and b (barrier acknowledged by
+			// the three clean voters) and gets its next proposal onto a minority; then b is installed again with every
+			// voter answering: certified cut < selection < quorum LEO, no quorum-identical entry right above the selection,
+			// and b (first in voter order) holds a divergent proposal that ends exactly at the selected index
+			for v := uint64(1); v <= uint64(in.Voters); v++ {
+				p.setDown(v, false)
+			}
+			for k2 := 0; k2 < 1+r.IntN(2); k2++ {
+				p.add(p.commitOp(p.leader, p.cur, p.newCmd()))
+			}
+			others := func(ex ...uint64) []uint64 {
+				var out []uint64
+				for v := uint64(1); v <= uint64(in.Voters); v++ {
+					skip := false
+					for _, e := range ex {
+						skip = skip || e == v
+					}
+					if !skip {
+						out = append(out, v)
+					}
+				}
+				return out
+			}
+			sized := func(n int) cmdInfo {
+				c := p.newCmd()
+				c.recs = p.newRecs(n, p.cur.e)
+				p.cmds[len(p.cmds)-1] = c
+				return c
+			}
+			l := p.leader
+			wop := p.commitOp(l, p.cur, sized(3))
+			wop.Drop = others(l)
+			p.add(wop)
+			rest := others(l)
+			b := rest[0]
+			if r.IntN(4) == 0 {
+				b = rest[r.IntN(len(rest))]
+			}
+			a1 := p.nextTerm()
+			i1 := p.installOp(b, a1)
+			i1.Drop = []uint64{l}
+			p.add(opIn{K: "restart", Node: b})
+			p.add(i1)
+			p.noteInstall(b, a1)
+			vop := p.commitOp(b, a1, sized(1))
+			vop.Drop = others(b)
+			p.add(vop)
+			clean := others(l, b)
+			c := clean[r.IntN(len(clean))]
+			a2 := p.nextTerm()
+			i2 := p.installOp(c, a2)
+			i2.Drop = []uint64{l, b}
+			p.add(opIn{K: "restart", Node: c})
+			p.add(i2)
+			p.noteInstall(c, a2)
+			d := others(l, b, c)
+			pop := p.commitOp(c, a2, p.newCmd())
+			pop.Drop = others(c, d[r.IntN(len(d))])
+			p.add(pop)
+			a3 := p.nextTerm()
+			p.add(opIn{K: "restart", Node: b})
+			p.add(p.installOp(b, a3))
+			p.noteInstall(b, a3)
+			p.ready = false
 		case x >= 35 && x < 42 && p.ready && in.Voters-2 >= in.Quorum: // unacknowledged leader tail repaired to ONE follower,
 			// leader + that follower stay a minority; both become unreachable, a voter that never saw the tail leads and commits
 			for v := uint64(1); v <= uint64(in.Voters); v++ {
